@@ -3,11 +3,11 @@ import Preflate.Model.Container
 namespace Preflate.Proofs
 open Preflate
 
-theorem bind_eq_ok {α β} (x : R α) (f : α → R β) (b : β) :
+theorem c_bind_eq_ok {α β} (x : R α) (f : α → R β) (b : β) :
     (x >>= f) = .ok b ↔ ∃ a, x = .ok a ∧ f a = .ok b := by
   cases x <;> simp [bind, Except.bind]
 
-theorem bind_ok {α β} (a : α) (f : α → R β) : ((.ok a : R α) >>= f) = f a := rfl
+theorem c_bind_ok {α β} (a : α) (f : α → R β) : ((.ok a : R α) >>= f) = f a := rfl
 
 theorem or_shift (acc x s : Nat) (h : acc < 2 ^ s) : acc ||| (x <<< s) = acc + x * 2 ^ s := by
   rw [Nat.or_comm, ← Nat.shiftLeft_add_eq_or_of_lt h, Nat.shiftLeft_eq, Nat.add_comm]
@@ -84,7 +84,7 @@ theorem varint_length_pos (v : Nat) : 0 < (varint v).length := by
   unfold varint
   simp only [writeVarint]; split <;> simp
 
-theorem be32_length (v : Nat) : (be32 v).length = 4 := rfl
+theorem c_be32_length (v : Nat) : (be32 v).length = 4 := rfl
 
 theorem be32_ofBe32 (l : Bytes) (hl : l.length = 4) (hb : ∀ x ∈ l, x < 256) :
     be32 (ofBe32 l) = l := by
